@@ -33,7 +33,7 @@ CHECKS = {
    "Trusted: lib/refsig, the in-process scripted plugins in harness/c07. A signing error on a legal input is reported as a violation (the statement presupposes every supported key can sign).",
    "DESIGN.md section 5 C07"),
  "C06": ("E3", "model_checking",
-   "exhaustive enumeration of a time-line product (scheme x tsa store in policy x verifyTimestamp x 3x3 certificate windows x 4 signing times x 4 expiries x 11 countersignature states forged by an offline RFC 3161 authority x 4 TSA revocation answers x format; quick: all cases with <= 5 deviations, thorough: full product) on the real verifier; reference clock model",
+   "exhaustive enumeration of a time-line product (scheme x tsa store in policy x verifyTimestamp x 3x3 certificate windows x 4 signing times x 4 expiries x 11 countersignature states forged by an offline RFC 3161 authority x 4 TSA revocation answers x format; quick: all cases with <= 5 deviations, thorough: full product) on the real verifier; instance-reuse histories; clock-advance histories through a clock seam (package verifier compiled with its time import rewritten to a movable clock: every ordered pair of 5 verification instants on one verifier instance); reference clock model",
    "Every case is verified by the real verifier under an all-log level (both results always reported) and under strict; the expiry and authentic-timestamp results and the strict verdict are compared with the reference clock model of DESIGN.md appendix A.2. All instants are >= 1 h away from the verification instant, so each case has one outcome whenever it runs.",
    "Trusted: the clock model in harness/c06, lib/tsa (token encoder), lib/forge. Tokens of public TSAs, leap seconds and non-UTC encodings are outside the bound.",
    "DESIGN.md section 5 C06, appendix A.2"),
@@ -48,7 +48,7 @@ CHECKS = {
    "Trusted: the labelled alphabets in harness/c09/tables.go and the reference validator; documents outside the component alphabets are not covered.",
    "DESIGN.md section 5 C09"),
  "C15": ("E2+E3", "model_checking",
-   "explicit-state breadth-first search over store/read histories (81 operations over 9 URLs x 6 bundles, depth 3 quick / 4 thorough, states deduplicated on the canonical directory content) on the real FileCache against a map model with expiry and a containment snapshot; exhaustive corruption (every truncation, every byte x 2 flips, structural swaps) of stored entries",
+   "explicit-state breadth-first search over store/read histories (81 operations over 9 URLs x 6 bundles, depth 3 quick / 4 thorough, states deduplicated on the canonical directory content) on the real FileCache against a map model with expiry and a containment snapshot; exhaustive corruption (every truncation, every byte x 2 flips, structural swaps) of stored entries; clock-advance histories through a clock seam (verifier/crl compiled with its time import rewritten to a movable clock: reads before/after next-update instants on the same and on a fresh instance)",
    "Each transition replays the shortest history into a fresh cache directory, applies one real Set/Get, snapshots the scratch parent and probes every URL; results are compared with map[url]bundle with expiry. Every corruption of a stored entry must yield an error, a miss, or a bundle byte-equal to what the oracle decodes from the file.",
    "Trusted: the map model and the JSON/x509 decoding of the oracle in harness/c15; clock changes during a run are outside the bound.",
    "DESIGN.md section 5 C15"),
@@ -144,7 +144,7 @@ def main():
         "setup_cmd": "./setup.sh",
         "hooks": {
             "guard": "verif",
-            "enable": "no in-repo hooks: checks build /repo's working tree as it is; C14 compiles internal/file and verifier/crl through a `go build -overlay` that rewrites their \"os\" import to /verif/engine/osshim (scheduling points below the code)",
+            "enable": "no in-repo hooks: checks build /repo's working tree as it is; seams are put BELOW the code with `go build -overlay` and an import rewrite of the current sources (cmd/osrewrite): C14 compiles internal/file and verifier/crl with \"os\" rewritten to /verif/engine/osshim (scheduling points at every file-system step), C06 compiles package verifier and C15 compiles verifier/crl with \"time\" rewritten to /verif/engine/timeshim (a clock the harness moves); if an overlay build fails the harness is built without it and reports the lost part as a cap",
             "baseline_off_cmd": "cd /repo && GOFLAGS=-mod=mod GOPROXY=off GOSUMDB=off GOTOOLCHAIN=local go test -vet=off -count=1 -timeout 25m ./...",
             "source_commits": [],
             "add_only": True,
